@@ -665,6 +665,27 @@ func (x *Exec) loopHeader(f *Frame, st *State, b *ssa.BasicBlock, prev *ssa.Basi
 		}
 	}
 	if isBack {
+		// frame inside loops: a component the unit may not modify is the same at the end of an iteration as at its
+		// start (a write to it in the loop body would otherwise be lost at the cut and never meet the frame
+		// obligation of the return)
+		if top := x.unit.Contract; top != nil && !top.ModAll {
+			if w0 := f.loopWorld[b]; w0 != nil {
+				mod := map[string]bool{}
+				for _, m := range top.Modifies {
+					mod[m] = true
+				}
+				for _, name := range w0.names() {
+					if mod[name] || name == "svcEpoch" {
+						continue
+					}
+					a, c := w0.get(name), st.world.get(name)
+					if a == nil || c == nil || a == c {
+						continue
+					}
+					x.oblige(st, "frame", fmt.Sprintf("%s@%s#%d", name, lastName(fkey), k), "", Eq(a, c), "world component "+name+" unchanged by an iteration of the loop (not in modifies)")
+				}
+			}
+		}
 		return nil, true
 	}
 	// havoc loop-carried state
@@ -838,6 +859,10 @@ func (x *Exec) loopHeader(f *Frame, st *State, b *ssa.BasicBlock, prev *ssa.Basi
 		st.assume(t)
 		x.tagFrom(st, n0, "inv:"+iv.Label)
 	}
+	if f.loopWorld == nil {
+		f.loopWorld = map[*ssa.BasicBlock]*World{}
+	}
+	f.loopWorld[b] = st.world.clone()
 	return nil, false
 }
 
